@@ -12,7 +12,7 @@ fn child_pos_opts(tier: &str) -> (FlatOpts, Option<usize>) {
     if tier == "quick" {
         (FlatOpts { max_members: 3, max_ghosts: 1, max_depth: 2, positional: true }, Some(5))
     } else {
-        (FlatOpts { max_members: 4, max_ghosts: 2, max_depth: 3, positional: true }, Some(7))
+        (FlatOpts { max_members: 4, max_ghosts: 1, max_depth: 2, positional: true }, Some(6))
     }
 }
 
@@ -20,7 +20,7 @@ fn child_opts(tier: &str) -> (FlatOpts, Option<usize>) {
     if tier == "quick" {
         (FlatOpts { max_members: 3, max_ghosts: 1, max_depth: 2, positional: false }, Some(6))
     } else {
-        (FlatOpts { max_members: 4, max_ghosts: 2, max_depth: 3, positional: false }, Some(8))
+        (FlatOpts { max_members: 4, max_ghosts: 1, max_depth: 3, positional: false }, Some(7))
     }
 }
 
